@@ -32,7 +32,14 @@ RULE = (
     "sibling derived with a third encoding reads, or nothing): every check is made on the derived class with ITS OWN "
     "declared encoding, exactly as for a directly declared class. Three text contents in ten of the single-byte "
     "encodings have their non-ASCII characters only in groups that are also well-formed UTF-8 sequences (a utf-8 text "
-    "saved through the single-byte encoding). The named Boolean "
+    "saved through the single-byte encoding). Four cases in ten have a HISTORY of path I/O in the same process (history: "
+    "one to three earlier operations by the class under test, by a second class declared the same way, or by a bare file "
+    "class of another family declaring the same encoding - each reads another file from a path: the same deck, the deck in "
+    "another encoding, the deck with bytes that are not valid in the declared encoding, cut short, empty; or saves the "
+    "deck to another path; a read that raises is accepted, nothing of it is observed), placed before the first read or "
+    "between the write and the round-trip read: every check must come out as the model computes it WITHOUT the history. "
+    "Such a case runs in a forked child process of its own, so that whatever its history leaves in the process reaches "
+    "only the case that declares it and the replay shows it alone. The named Boolean "
     "checks are evaluated by the driver. non-trivial = the content has a non-ASCII character or binary storage; "
     "distinct by full case."
 )
@@ -160,7 +167,114 @@ def prior_bytes(kind, out, enc, binary):
     return b
 
 
+# a history of path I/O in the same process, before the observed operations (nothing of it is observed)
+HIST_TEXT = ["foreign_bytes", "foreign_bytes", "foreign_bytes", "other_encoding", "other_encoding", "other_encoding", "prefix", "same", "empty", "save"]
+HIST_BIN = ["same", "prefix", "empty", "save"]
+HIST_WORDS = {"foreign_bytes": "the deck with bytes that are not valid in the declared encoding", "other_encoding": "the deck encoded in", "prefix": "the deck cut short", "same": "the same deck", "empty": "nothing"}
+FOREIGN = {"utf-8": b"\xe9\xe3o \xfa\n", "utf-16": b"\x00\xd8\n", "cp1252": b"\x81 \x8d\x9d\n", "latin-1": b"\xff\xfe\xe9\n"}
+
+
+def history_bytes(item, content, raw, enc, binary):
+    kind = item["kind"]
+    if kind == "empty":
+        return b""
+    if kind == "prefix":
+        return raw[: ((2 * len(raw)) // 3) | 1]
+    if binary or kind == "same":
+        return raw
+    if kind == "other_encoding":
+        return content.encode(item.get("alt", "latin-1"), errors="replace")
+    # a deck of a legacy tool: bytes that are not valid in the declared encoding among the lines
+    k = len(raw) // 2
+    return raw[:k] + FOREIGN.get(enc, b"\xff\n") + raw[k:]
+
+
+def run_history(case, F, d, content, raw, extra, kw, tag):
+    """earlier path I/O in the same process: other files read from their paths (a file that is not in the declared
+    encoding either raises or yields something: both accepted), or the deck saved to another path"""
+    enc, binary = case["encoding"], case["binary"]
+    for i, item in enumerate(case.get("history") or []):
+        who = item.get("who", "self")
+        if who == "twin" or (who == "bare" and binary):
+            G = mk_file_class(case)[0]
+        elif who == "bare":
+            if case["family"] == "section":
+                from cfinterface.files.registerfile import RegisterFile as b2
+
+                tab = {"REGISTERS": []}
+            else:
+                from cfinterface.files.sectionfile import SectionFile as b2
+
+                tab = {"SECTIONS": []}
+            G = type("Bare", (b2,), dict(tab, ENCODING=enc, STORAGE="TEXT", __slots__=[]))
+        else:
+            G = F
+        p = os.path.join(d, f"hist_{tag}_{i}.dat")
+        try:
+            if item["kind"] == "save":
+                G.read(content, *extra, **kw).write(p)
+            else:
+                with open(p, "wb") as fh:
+                    fh.write(history_bytes(item, content, raw, enc, binary))
+                G.read(p, *extra, **kw)
+        except Exception:
+            pass
+
+
+def _forked(fn):
+    """runs fn() in a forked child of this process and returns its (JSON) result: what the case does to the state
+    of the process stays with the case"""
+    import signal
+
+    r, w = os.pipe()
+    pid = os.fork()
+    if pid == 0:
+        data = b""
+        try:
+            os.close(r)
+            try:
+                import core
+
+                if hasattr(signal, "setitimer"):
+                    signal.setitimer(signal.ITIMER_PROF, core.CASE_TIMEOUT_S)
+                out = fn()
+            except BaseException as e:  # the watchdog's CaseTimeout included
+                out = {"harness_exc": type(e).__name__, "msg": (str(e) or "the operation on the real code did not finish within its CPU time budget")[:300]}
+            data = json.dumps(out).encode()
+            while data:
+                n = os.write(w, data)
+                data = data[n:]
+        finally:
+            os._exit(0)
+    os.close(w)
+    buf, eof = [], False
+    try:
+        while True:
+            b = os.read(r, 65536)
+            if not b:
+                eof = True
+                break
+            buf.append(b)
+    finally:
+        os.close(r)
+        try:
+            if not eof:  # a watchdog alarm in this process: the child is stopped
+                os.kill(pid, 9)
+            os.waitpid(pid, 0)
+        except OSError:
+            pass
+    if not buf:
+        return {"harness_exc": "ChildProcessError", "msg": "the forked process of the case ended without a result"}
+    return json.loads(b"".join(buf))
+
+
 def run_impl(case):
+    if case.get("history"):
+        return _forked(lambda: _run_impl(case))
+    return _run_impl(case)
+
+
+def _run_impl(case):
     d0 = d = tempfile.mkdtemp(prefix="cfi-c16-")
     try:
         if case.get("long_path"):
@@ -185,6 +299,8 @@ def run_impl(case):
             else:
                 extra = (case["linesize"],)
         warm_up(case, rel, content, extra, kw)
+        if case.get("history_at", "start") == "start":
+            run_history(case, F, d, content, raw, extra, kw, "a")
         f_path = F.read(src, *extra, **kw)
         f_mem = F.read(content, *extra, **kw)
         checks = {}
@@ -231,6 +347,8 @@ def run_impl(case):
             checks["caller_tempfile_wrapper_left_open"] = not tmp.closed
         checks["caller_tempfile_wrapper_receives_memory_output"] = got == mem_out
         # round trip through disk = round trip through memory
+        if case.get("history_at", "start") == "before_roundtrip":
+            run_history(case, F, d, content, raw, extra, kw, "b")
         f_disk_rt = F.read(dst, *extra, **kw)
         f_mem_rt = F.read(mem_out, *extra, **kw)
         e_disk_rt, e_mem_rt = elems_of(case, f_disk_rt, classes), elems_of(case, f_mem_rt, classes)
@@ -256,6 +374,11 @@ def judge(case, obs, resp):
         return {"status": "error", "why": f"harness: {obs['harness_exc']} {obs.get('msg')}"}
     dv = case.get("derive")
     how = f" (file class derived from a parent declaring {dv['parent_encoding']}, used first: {dv.get('warm')})" if dv else ""
+    hs = case.get("history")
+    if hs:
+        how += " (earlier in the same process, " + ("before the first read" if case.get("history_at", "start") == "start" else "between the write and the round-trip read") + ": " + "; ".join(
+            (f"{h.get('who', 'self')} class saves the deck to another path" if h["kind"] == "save" else f"{h.get('who', 'self')} class reads from a path a file holding " + HIST_WORDS.get(h["kind"], h["kind"]) + (f" {h['alt']}" if h["kind"] == "other_encoding" else "")) for h in hs
+        ) + ")"
     if "exc" in obs:
         return {"status": "oracle", "why": f"{case['family']} {'binary' if case['binary'] else 'text'} {case['encoding']}{how}: path/in-memory I/O raised {obs['exc']}: {obs.get('msg')}"}
     if not resp["holds"]:
@@ -270,7 +393,7 @@ def nontrivial(case):
 
 
 def features(case, obs):
-    return [f"family={case['family']}", "binary" if case["binary"] else "text", f"encoding={case['encoding']}", "non_ascii" if any(c > 127 for c in case["x"]) else "ascii", f"dst_prior={case.get('dst_prior') or ('longer' if case.get('dst_exists') else 'none')}", f"derive={(case.get('derive') or {}).get('warm', 'direct')}"]
+    return [f"family={case['family']}", "binary" if case["binary"] else "text", f"encoding={case['encoding']}", "non_ascii" if any(c > 127 for c in case["x"]) else "ascii", f"dst_prior={case.get('dst_prior') or ('longer' if case.get('dst_exists') else 'none')}", f"derive={(case.get('derive') or {}).get('warm', 'direct')}", f"history={len(case.get('history') or [])}"] + [f"history_kind={h['kind']}" for h in (case.get("history") or [])]
 
 
 def signature(rec):
@@ -312,6 +435,26 @@ MOJI = {e: _moji(e) for e in ("latin-1", "cp1252")}
 
 
 def random_case(rng):
+    case = _random_case0(rng)
+    # four cases in ten have a history of path I/O in the same process; drawn from a stream of its own, derived
+    # from the case, so that the cases themselves are what they were
+    import zlib
+
+    hrng = random.Random(zlib.crc32(json.dumps(case, sort_keys=True).encode()))
+    if hrng.random() < 0.4:
+        kinds = HIST_BIN if case["binary"] else HIST_TEXT
+        hist = []
+        for _ in range(hrng.choice([1, 1, 2, 3])):
+            item = {"who": hrng.choice(["self", "self", "twin", "bare"]), "kind": hrng.choice(kinds)}
+            if item["kind"] == "other_encoding":
+                item["alt"] = hrng.choice([e for e in ENCODINGS if e != case["encoding"]])
+            hist.append(item)
+        case["history"] = hist
+        case["history_at"] = hrng.choice(["start", "start", "before_roundtrip"])
+    return case
+
+
+def _random_case0(rng):
     fam = rng.choice(["register", "block", "section"])
     binary = fam != "section" and rng.random() < 0.3
     enc = rng.choice(ENCODINGS)
@@ -417,6 +560,11 @@ def cases_of(chunk):
 
 
 def shrinks(case):
+    hs = case.get("history") or []
+    for i in range(len(hs)):
+        rest = hs[:i] + hs[i + 1 :]
+        c2 = {k: v for k, v in case.items() if k not in ("history", "history_at")}
+        yield {**case, "history": rest} if rest else c2
     x = case["x"]
     n = len(x)
     for k in (n // 2, n // 4, 1):
